@@ -34,12 +34,16 @@ def strategy(tier):
         "shared_node_hosts": st.sampled_from([0, 0, 0, 1, 2]),
         # operator commands bound to the end of a batch, held back between two lock holds (common.late_ops)
         "late": C.late_ops(),
+        # moments at which the scheduler shows a queued/running batch in a non-terminal state outside JADE's table
+        "exotic": st.lists(st.fixed_dictionaries({"at": st.integers(10, 300), "steps": st.integers(20, 200),
+                                                  "which": st.integers(0, 7)}), max_size=2),
     })
 
 
 def run_case(case):
     scn = case["scn"]
-    with H.Sim(scn, schedule=case["schedule"], shared_node_hosts=case.get("shared_node_hosts", 0)) as sim:
+    with H.Sim(scn, schedule=case["schedule"], shared_node_hosts=case.get("shared_node_hosts", 0),
+               exotic=case.get("exotic", ())) as sim:
         import os
 
         for u in sorted(case.get("user", []), key=lambda x: x["at"]):
